@@ -3,23 +3,23 @@
 import json, subprocess
 
 CLAIMED = {
- "C01": ("exploration", "seeded simulation: a generated value is saved through a seeded output configuration (memory or simulated ostream with out-buffer size, 5 encodings, BOM, formatting, CSV separator) and loaded back through a seeded input configuration (memory or simulated istream: file/pipe, delivery sizes, chunk knobs); equality oracle against the generated value and load-save-load fixed point", "6 C01",
-         "The configuration half is what the simulator owns; the value half is seeded sampling of DynNode trees (scalars of all widths, four string widths, byte containers, arrays, objects). Known findings KF-XML-EMPTY-CONTAINER, KF-CSV-EMPTY-TABLE, KF-JSON-BOMLESS-DETECT are avoided in 63 of 64 runs."),
- "C02": ("exploration", "seeded simulation: storage-corruption faults (bit flips, set, truncate, duplicated/lost/garbage blocks, zeroed ranges, inflated length fields, nesting bombs, pure garbage) on a simulated file written by the real writer, delivered through memory and seeded stream entries (file/pipe, delivery sizes, chunk knobs) into same-shape, other-shape and std-container targets under both policies; oracle = only std::exception, no terminate/signal/sanitizer report, deterministic basic-block and stream-call budgets, allocator ledger bound", "6 C02",
-         "Loader half of the property; the string converters are only reached as a by-product (direct feed of corrupted cell texts, labelled input generation). malloc inside RapidJSON/pugixml is not faulted or metered. Stack: 8 MiB worker stack, documents <= 64 KiB."),
- "C03": ("exploration", "seeded simulation: generated request histories (keyed reads in any order, repeats, absent keys, VisitKeys, nested objects/arrays left partly read, members never requested) executed by a user-type program model against an object document followed by a sentinel, through memory and seeded stream entries (file/pipe, delivery sizes, chunk knobs, padding that slides the object across the chunk boundary); reference = the generated tree, checked after every request", "6 C03",
+ "C01": ("exploration", "seeded simulation: a generated value is saved through a seeded output configuration (memory or simulated ostream with out-buffer size, 5 encodings, BOM, formatting, CSV separator) and loaded back through a seeded input configuration (memory or simulated istream: file/pipe, delivery sizes, chunk knobs); equality oracle against the generated value and load-save-load fixed point; 1 run in 4 uses a struct holding every std adapter the library ships (containers on both sides of the 1024-element estimate cap, calendar corners, multimap order)", "6 C01",
+         "The configuration half is what the simulator owns; the value half is seeded sampling of DynNode trees (scalars of all widths, four string widths with markup sequences, time points, byte containers, arrays, objects with const char*/prefix/integer keys). Known findings KF-CSV-EMPTY-TABLE, KF-JSON-BOMLESS-DETECT and KF-JSON-DOUBLE-PRECISION-* are avoided in 63 of 64 runs."),
+ "C02": ("exploration", "seeded simulation: storage-corruption faults (bit flips, set, truncate, duplicated/lost/garbage blocks, zeroed ranges, inflated length fields, nesting bombs, pure garbage) on a simulated file written by the real writer, delivered through memory and seeded stream entries (file/pipe, delivery sizes, chunk knobs) into same-shape, other-shape and std-container targets under both policies, reading programs with failing validators, a read-only guard-paged string_view entry, streams whose caller enabled failbit/eofbit exceptions; plus legs for the chrono converters (ISO-8601 grammar with extreme fields), the UTF transcoders with long error marks and the enum stream operators on failing streams; oracle = only std::exception, no terminate/signal/sanitizer report, deterministic basic-block and stream-call budgets, allocator ledger bound", "6 C02",
+         "The converter legs are seeded input generation (no schedule or fault of their own except the failing stream of the enum operators); they ride on the loader check because the property names them. malloc inside RapidJSON/pugixml is not faulted or metered. Stack: 8 MiB worker stack, documents <= 64 KiB."),
+ "C03": ("exploration", "seeded simulation: generated request histories (keyed reads in any order, repeats, absent keys, VisitKeys, nested objects/arrays left partly read, members never requested) executed by a user-type program model against an object document followed by a sentinel, through memory and seeded stream entries (file/pipe, delivery sizes, chunk knobs, stream start offsets that slide the object across the chunk boundary, MessagePack re-encoded the way other encoders write integers, byte containers stored as plain arrays); reference = the generated tree, checked after every request; a leg with documents that omit members of a struct of std adapters", "6 C03",
          "On a non-seekable stream a request that needs a seek may end in a SerializationException instead of the value (stated relaxation). Regions of C01's known findings (XML empty containers, inexact JSON doubles) are not generated."),
- "C05": ("exploration", "seeded simulation: typed-corruption faults (a stored value replaced by a string/array/object/null/float/out-of-range number/bin/array-of-bytes) under both Skip policies, differential against the same load of the unfaulted document through memory and seeded stream entries; Required() on the offended members must be the only validation errors", "6 C05",
+ "C05": ("exploration", "seeded simulation: typed-corruption faults (a stored value replaced by a string/array/object/null/float/out-of-range or wide number/bin/array-of-bytes/timestamp/application ext value, in every header size class) under both Skip policies, differential against the same load of the unfaulted document through memory and seeded stream entries; Required() on the offended members must be the only validation errors; legs for std::vector targets beyond the estimate cap and for std::tuple/std::array/vector-of-tuple targets", "6 C05",
          "Offence kinds are restricted per archive to definite mismatches (e.g. XML cannot tell an object from an array, a CSV cell is always a valid string). The unfaulted load is the specification for the neighbours."),
- "C10": ("exploration", "seeded simulation: differential memory-load vs stream-load of the same bytes under seeded delivery schedules of a simulated streambuf (file/pipe, 1..300 bytes per underflow), chunk-size knobs and storage-corruption faults; stream save vs memory save", "6 C10",
-         "Samples the space of (document, corruption, delivery schedule, knob) tuples; the memory outcome is the specification, so an error shared by both readers is invisible. Trusted: libstdc++ iostreams, RapidJSON, pugixml, the harness models."),
- "C13": ("exploration", "seeded simulation: text encoded by an independent reference codec (5 encodings, with/without BOM, code points of every UTF-8/UTF-16 length round the chunk boundary) on a simulated file with an EOF fault at a seeded byte, read through CEncodedStreamReader for every target width, chunk size (32/64/256 by template, 36/40/128 by the guarded knob) and both policies under seeded delivery schedules; CEncodedStreamWriter output against the reference encoding under seeded Write() splits and out-buffer sizes; hand-built reference-encoded CSV/JSON/XML documents through the stream entry points", "6 C13",
+ "C10": ("exploration", "seeded simulation: differential memory-load vs stream-load of the same bytes under seeded delivery schedules of a simulated streambuf (file/pipe, 1..300 bytes per underflow), chunk-size knobs, stream start offsets and storage-corruption faults, including reading programs with failing validators (same paths and messages), documents at every format size threshold, a struct of std adapters, arbitrary JSON doubles and foreign integer encodings; stream save vs memory save, also for strings that are not well-formed UTF-8", "6 C10",
+         "Samples the space of (document, corruption, delivery schedule, knob) tuples; the memory outcome is the specification, so an error shared by both readers is invisible. Trusted: libstdc++ iostreams, RapidJSON, pugixml, the harness models. KF-JSON-SAVE-ILLFORMED-UTF8 avoided in 63 of 64 runs of its leg."),
+ "C13": ("exploration", "seeded simulation: text encoded by an independent reference codec (5 encodings, with/without BOM, code points of every UTF-8/UTF-16 length round the chunk boundary) on a simulated file with an EOF fault at a seeded byte, read through CEncodedStreamReader for every target width, chunk size (32/64/256 by template, 36/40/128 by the guarded knob) and both policies under seeded delivery schedules; CEncodedStreamWriter output against the reference encoding under seeded Write() splits and out-buffer sizes; a refused (ill-formed) write between good writes; hand-built reference-encoded CSV/JSON/XML documents through the stream entry points and back out through the archive's stream writer (pretty-printed or not); DetectEncoding on streams not at position 0", "6 C13",
          "BOM-less texts begin with an ASCII character other than NUL (the property's precondition) and contain no NUL; the first character is never NUL (FF FE 00 00 is ambiguous). UTF-8 into a char target is a byte copy by design. The RapidYAML entry point is not built."),
- "C18": ("exploration", "seeded simulation: histories of 2-6 loads into one persistent target holding every std adapter the library ships (sequence, associative, unordered containers, adapters, optional, smart pointers, bitset, tuple, pair, atomic, strings, nested combinations, CSV rows), with intermediate loads aborted midway by injected faults (EOF at a byte, k-th allocation failing, device error silent or thrown); final state compared with the same load into a default-constructed target; MapLoadMode::OnlyExistKeys/UpdateKeys against a reference map replaying the history; allocator ledger balanced after the target is destroyed", "6 C18",
+ "C18": ("exploration", "seeded simulation: histories of 2-6 loads into one persistent target holding every std adapter the library ships (sequence, associative, unordered containers, adapters, optional, smart pointers, bitset, tuple, pair, atomic, strings, nested combinations, CSV rows), with intermediate loads aborted midway by injected faults (EOF at a byte, k-th allocation failing, device error silent or thrown); final state compared with the same load into a default-constructed target; MapLoadMode::OnlyExistKeys/UpdateKeys against a reference map replaying the history and a metamorphic leg with repeated keys (result independent of prior values); documents written by other class versions (null elements, objects lacking members, chrono texts under Skip policies), aliased shared_ptr slots; allocator ledger balanced after the target is destroyed", "6 C18",
          "Differential against a fresh target: an error shared by both is invisible. Text formats: string fields are non-empty (\"\" is null there and null leaves a field unchanged by the documented rule). KF-XML-NULL-VS-EMPTY avoided in 63 of 64 runs."),
- "C19": ("exploration", "seeded simulation of thread interleavings: 2-4 real threads, each with 3-10 operations (save/load on all four archives via memory and simulated streams on thread-local models, shared const model and input buffers, Convert of numbers/enums/chrono/UTF, validation-failing and corrupted loads) are parked and released one at a time by a seeded scheduler (random walk and PCT-style change points) with a preemption point at every basic block of instrumented code (-fsanitize-coverage=trace-pc-guard), every armed allocation and every simulated stream call; oracle 1 (asan+ubsan flavour) = every result equals the sequential run of the same operations; oracle 2 (tsan flavour, same plans) = ThreadSanitizer happens-before detection, to which the scheduler's futex hand-off is invisible", "6 C19",
+ "C19": ("exploration", "seeded simulation of thread interleavings: 2-4 real threads, each with 3-10 operations (save/load on all four archives via memory and simulated streams on thread-local models, shared const model and input buffers, Convert of numbers/enums/chrono/time_t/UTF, validation-failing and corrupted loads, file round trips on files of their own, 100-140 level deep documents, per-operation options) are parked and released one at a time by a seeded scheduler (random walk and PCT-style change points) with a preemption point at every basic block of instrumented code (-fsanitize-coverage=trace-pc-guard), every armed allocation, every simulated stream call and (tsan flavour) every atomic operation; cold runs in fresh processes so that first-use initialisation happens under the scheduler; oracle 1 (asan+ubsan flavour) = every result equals the sequential run of the same operations; oracle 2 (tsan flavour, same plans) = ThreadSanitizer happens-before detection, to which the scheduler's futex hand-off is invisible", "6 C19",
          "Exactly one thread runs at a time, so a race is observed through its effect on results (flavour asan) or through TSan's vector clocks (flavour tsan), not through simultaneous execution. libstdc++ and pugixml are not TSan-instrumented. A TSan report without a BitSerializer frame is a harness error (exit 2), not a violation."),
- "C20": ("fault_enumeration", "seeded simulation with exhaustive fault sweeps: for each seeded scenario (archive x dyn/zoo model x save/load x memory/stream) one fault kind is injected at EVERY position in turn - EOF at every byte, the k-th operator new failing for every k inside the library call, the simulated streambuf failing silently (badbit) or by throwing at every byte on load and on save, and library-detected errors at every place the scenario offers (CSV row width at every row, mismatched value at every field with ThrowError, unencodable text at every string, size() lie at every array); oracle = std::exception reaches the caller, no std::terminate/signal/sanitizer report/hang, MessagePack prefixes rejected, failure observable on return, exact allocator-ledger balance, partly loaded target reloadable", "6 C20",
+ "C20": ("fault_enumeration", "seeded simulation with exhaustive fault sweeps: for each seeded scenario (archive x dyn/zoo model x save/load x memory/stream) one fault kind is injected at EVERY position in turn - EOF at every byte, the k-th operator new failing for every k inside the library call, the simulated streambuf failing silently (badbit) or by throwing at every byte on load and on save, and library-detected errors at every place the scenario offers (CSV row width at every row, mismatched value at every field with ThrowError, unencodable text at every string, size() lie at every array), the latter combined with the k-th allocation failing; a quarter of the scenarios call every operation from a destructor during stack unwinding; oracle = std::exception reaches the caller, no std::terminate/signal/sanitizer report/hang, MessagePack prefixes rejected, failure observable on return, no allocation failure swallowed, exact allocator-ledger balance, partly loaded target reloadable", "6 C20",
          "Exhaustive per scenario, scenarios are sampled (exhaustive=false for the check). malloc inside RapidJSON/pugixml is not faulted. A leak must repeat on an immediate re-run to be reported (first-use statics are not leaks). fail@n is 'observable' when the call throws or the stream reports fail()."),
 }
 NA = {
